@@ -83,12 +83,20 @@ class VirtualLoop(asyncio.SelectorEventLoop):
             self._limit = None
         return "quiescent" if self.quiescent else "limit"
 
+    def sleep_until(self, t: float) -> str:
+        """Let virtual time pass until t even if nothing at all is scheduled (run_until leaves the clock
+        where the loop became quiescent)."""
+        r = self.run_until(t)
+        if self._vtime < t:
+            self._vtime = t
+        return r
+
     def settle(self) -> str:
         """Run everything that is ready *now* (no clock movement)."""
         return self.run_until(self._vtime)
 
     def advance(self, dt: float) -> str:
-        return self.run_until(self._vtime + dt)
+        return self.sleep_until(self._vtime + dt)
 
     def do(self, fn, *args):
         """Run fn inside the loop (so asyncio.get_running_loop() works), then settle."""
